@@ -167,6 +167,7 @@ def _summarize(c, rep):
         'source': rep.source, 'sha256': rep.sha, 'wall': rep.wall, 'solver_time': solver_time,
         'by_backend': by_backend, 'vcs': vcs, 'samples': samples,
         'unknown_feasibility': rep.unknown_feasibility, 'feasibility_queries': rep.feasibility_queries,
+        'uncovered': rep.uncovered,
         'deps_sha': rep.deps_sha,
     }
 
@@ -371,6 +372,9 @@ def report(prop, mine, results, missing, seed, wall, args):
                 crashes.append((rep['qname'], '\n'.join(rep['errors'][:3])))
             if rep['paths'] == 0 and not rep['unsupported'] and not rep['errors']:
                 crashes.append((rep['qname'], 'vacuous: no feasible path (contradictory precondition?)'))
+            if rep.get('uncovered'):
+                crashes.append((rep['qname'], 'vacuous: return/raise never reached on a feasible path (cut off by an '
+                                              'assumption?): ' + '; '.join(rep['uncovered'])))
             if not rep['clauses'] and not rep['unsupported'] and not rep['errors']:
                 crashes.append((rep['qname'], 'vacuous: zero obligations generated'))
             for name, cl in rep['clauses'].items():
@@ -465,6 +469,42 @@ def report(prop, mine, results, missing, seed, wall, args):
     assumptions.extend('assert isinstance(...) taken as assumption at %s' % a for a in sorted(assumed_asserts))
     assumptions.extend('executed natively on concrete arguments: %s' % a for a in sorted(native_calls))
     assumptions.append('integers are mathematical; no threads/signals/BaseException; termination only where a variant is given')
+    extra = {}
+    if _TIER == 'thorough' and not args.only:
+        # validation of the verifier itself (DESIGN 2.4): a failure here is a checker error
+        try:
+            from . import crosscheck, modelcheck
+            cc = crosscheck.run(prop, 25, seed)
+            extra['interpreter_crosscheck_against_cpython'] = {
+                'runs_compared': cc['compared'], 'failures': len(cc['failures']),
+                'functions_without_concrete_inputs': sorted(cc['skipped'])}
+            cases, mfail = modelcheck.run(3)
+            extra['string_model_crosscheck_against_cpython'] = {'cases': cases, 'failures': len(mfail)}
+            suites = [x for m in mine for x in getattr(m, 'conformance_suites', [])]
+            if suites:
+                import subprocess
+                env = dict(os.environ, PYTHONPATH=os.pathsep.join([VERIF, REPO_SRC, os.path.join(REPO, 'test')]))
+                p = subprocess.run(['/venv/bin/python', '-W', 'ignore', '-m', 'pyvc.conformance', prop] + suites,
+                                   cwd=VERIF, env=env, capture_output=True, text=True, timeout=1800)
+                try:
+                    conf = json.loads(p.stdout[p.stdout.index('{'):])
+                except Exception:
+                    conf = {'error': (p.stdout + p.stderr)[-800:]}
+                extra['runtime_conformance_under_repository_unit_tests'] = conf
+                if conf.get('precondition_failures') or conf.get('postcondition_failures') or 'error' in conf:
+                    print('CHECKER-ERROR: run-time conformance: %s' % json.dumps(
+                        {k: conf.get(k) for k in ('precondition_failures', 'postcondition_failures', 'error')})[:1500])
+                    if exit_code == 0:
+                        exit_code = 3
+            if cc['failures'] or mfail:
+                for f in (cc['failures'] + mfail)[:10]:
+                    print('CHECKER-ERROR: cross-check against CPython failed: %r' % (f,))
+                if exit_code == 0:
+                    exit_code = 3
+        except Exception:
+            print('CHECKER-ERROR: cross-check crashed\n' + traceback.format_exc())
+            if exit_code == 0:
+                exit_code = 3
     evidence = {
         'property_id': prop, 'tier': _TIER, 'seed': seed, 'level': 'proof',
         'coverage': {
@@ -480,6 +520,7 @@ def report(prop, mine, results, missing, seed, wall, args):
             'undecided': [list(u) for u in undecided],
             'samples': samples[:5] or [{'note': 'no SMT sample (all obligations by enumeration/scan)'}],
             'bounded_standins': bounded,
+            **extra,
         },
         'assumptions': assumptions,
         'wall_s': round(wall, 3),
